@@ -275,10 +275,20 @@ func c12All(tier string) []Scenario {
 	sc = append(sc, c12WriteVisible("P2M1")...)
 	with(c12BigScenarios(), func(s *Scenario) string { return "D2M1" })
 	with(c12Scenarios(4, 2), func(s *Scenario) string { return "D3M1" })
-	// three records, and three workers: still every interleaving (happens-before pruning keeps these finite
-	// and, measured, cheaper than a preemption bound of 2, whose budget-indexed cache prunes less)
-	with(c12Scenarios(3, 2), func(s *Scenario) string { return "U" })
-	with(c12Scenarios(2, 3), func(s *Scenario) string { return "U" })
+	// three records, and three workers: still every interleaving for the pipelines whose spaces stay small,
+	// at most two preemptions for the others
+	cheapU := func(s *Scenario) string {
+		switch s.Call.Cmd {
+		case "toma", "snps", "list", "closest":
+			return "U"
+		}
+		if strings.Contains(s.Name, "annoref") || strings.Contains(s.Name, "stdin") {
+			return "U"
+		}
+		return "P2M2" // (measured: the unbounded spaces of these pipelines at 3 records or 3 workers take hours)
+	}
+	with(c12Scenarios(3, 2), cheapU)
+	with(c12Scenarios(2, 3), cheapU)
 	with(c12Scenarios(3, 3), func(s *Scenario) string { return "D3M2" })
 	return sc
 }
